@@ -5,7 +5,7 @@ id=$1; wt=/tmp/wt/$id; out=/tmp/seedout/$id
 export GOFLAGS=-mod=mod GOPROXY=off GOSUMDB=off GOTOOLCHAIN=local; unset GOWORK
 export TMPDIR=/tmp/seedtmp-$id; mkdir -p $TMPDIR
 cd $wt || exit 2
-git checkout -q -- . ; git clean -fdq -- tests >/dev/null 2>&1
+git checkout -q -- . ; rm -f tests/zz_seed_demo_test.go zz_seed_demo_test.go
 git apply $out/patch.diff || { echo "PATCH DOES NOT APPLY"; exit 2; }
 pkg=$(head -5 $out/demo_test.go | grep '^package' | awk '{print $2}')
 if [ "$pkg" = "tests_test" ]; then demodir=$wt/tests; else demodir=$wt; fi
@@ -15,9 +15,9 @@ echo "== tests suite (with patch)"; (cd tests && go test -vet=off -count=1 ./...
 cp $out/demo_test.go $demodir/zz_seed_demo_test.go
 race=""; grep -q "race" $out/notes.md 2>/dev/null && grep -qi "\-race" $out/notes.md && race="-race"
 echo "== demo WITH patch (must fail) $race"; (cd $demodir && go test $race -vet=off -count=1 -run "TestC[0-9]+|TestSeed|TestDemo" . 2>&1 | tail -6)
-git stash -q
+git apply -R $out/patch.diff
 cp $out/demo_test.go $demodir/zz_seed_demo_test.go
 echo "== demo WITHOUT patch (must pass)"; (cd $demodir && go test $race -vet=off -count=1 -run "TestC[0-9]+|TestSeed|TestDemo" . 2>&1 | tail -3)
 rm -f $demodir/zz_seed_demo_test.go
-git stash pop -q
+git apply $out/patch.diff
 rm -rf $TMPDIR
